@@ -275,3 +275,39 @@ def run(ck):
                   "is already in the jar is not add()'s keep-first" % (ownb, how))
     ck.require(nmut >= 2, "mutations of the jar's storage found: %d" % nmut)
 
+    # ---------------- R1 clause: an extension attribute is written as name=value, whatever the value ----------------
+    cw_ = lib.single(prog, "Pistache::Http::Cookie::write")
+    EXT = "f:Pistache::Http::Cookie::ext"
+    nloop = 0
+    for hdr, body in cfg.natural_loops(cw_):
+        # the loop that walks Cookie::ext: its range / iterators are initialised from that member
+        over_ext = any(EXT in (e.get("refs") or []) for b_ in (set(body) | set(cw_.blocks[hdr].preds)) if b_ in cw_.blocks for e in cw_.blocks[b_].elems if e["k"] in ("decl", "call")) or \
+            EXT in ((cw_.blocks[hdr].term or {}).get("refs") or [])
+        ins = [e for b_ in body for e in cw_.blocks[b_].elems if e["k"] == "call" and e.get("op") == "<<"]
+        if not over_ext or not ins:
+            continue
+        nloop += 1
+        is_eq = lambda e: e["k"] == "call" and e.get("op") == "<<" and any(a_.get("const") in ("s:=", "c:61") for a_ in (e.get("args") or [])[-1:])
+        bare = []
+
+        def st_(st, ev):
+            if is_eq(ev):
+                return 1
+            return st
+
+        def ed_(st, blk, k, succ):
+            if succ == hdr and blk.id != hdr:
+                if st == 0:
+                    bare.append(blk.id)
+                return None
+            if succ not in body:
+                return None
+            return st
+        for s0 in [x_ for x_ in cw_.blocks[hdr].succs if x_ is not None and x_ in body]:
+            cfg.run_automaton(cw_, 0, st_, edge=ed_, start=s0)
+        ck.ob("C17-R1", "Cookie::write/ext-name-always-followed-by-=", not bare, ins[0].loc, cw_,
+              "every way round the loop over the extension attributes writes '='" if not bare else
+              "an extension attribute can be written without its '=' (block %s): Cookie::fromRaw reads an extension as name '=' value, a bare "
+              "token is something else to it" % bare[0])
+    if not nloop:
+        ck.note("C17-R1: the loop over Cookie::ext in Cookie::write was not recognised: the name=value clause of extension attributes is not decided")
